@@ -234,6 +234,20 @@ func (fx *FuncCtx) evalUnary(st *State, x *ast.UnaryExpr) Val {
 		}
 	case token.AND:
 		return fx.evalAddrOf(st, x)
+	case token.ARROW:
+		// channel receive: scheduling is not modelled (A7); the value is arbitrary
+		ct, ok := fx.typeOf(x.X).Underlying().(*types.Chan)
+		if !ok {
+			fx.unsupportedf("receive from non-channel")
+		}
+		if _, isEmpty := ct.Elem().Underlying().(*types.Struct); isEmpty && ct.Elem().Underlying().(*types.Struct).NumFields() == 0 {
+			return StructV{T: ct.Elem()}
+		}
+		v, facts := fx.freshVal("recv", ct.Elem())
+		for _, f := range facts {
+			st.assume(f)
+		}
+		return v
 	}
 	fx.unsupportedf("unary %s", fx.src(x))
 	return nil
